@@ -395,3 +395,10 @@ fn c11_o3_table_closest() {
     std::mem::forget(out);
     std::mem::forget(rt);
 }
+
+impl RoutingTable {
+    /// (dht_size_estimates_count, responders_samples_count, responders_subnets_sum)
+    pub(crate) fn kani_stats(&self) -> (usize, usize, usize) {
+        (self.dht_size_estimates_count, self.responders_samples_count, self.responders_subnets_sum)
+    }
+}
